@@ -119,6 +119,8 @@ def classify (s : State) (drain : Bool) (op : Op) (mo : IObs) (io : IObs) : Opti
       else if c.inner == .connected then some "C04/idle-not-reused"
       else some "C14/not-preempted"
     | some _, .err _, .pending => some "C03/stranded"
+    -- a request waiting on somebody else's attempt is failed although that attempt is still in flight
+    | some c, .pending, .err _ => if c.inner == .waiting then some "C03/waiter-failed-while-attempt-in-flight" else none
     | some _, .got _ _, .err _ => if drain then some "C03/probe-failed" else none
     | _, _, _ => if drain && io.res == .pending && mo.res != .pending then some "C03/stranded" else none
   | .issue _ k _ =>
